@@ -565,21 +565,9 @@ impl RefCore {
         let value = new.value().clone();
         let changed = self.write(&path, new, force)?;
         // own graveGoods / lastWill must be well-formed
-        if c != INTERNAL && is_sys(&path) {
-            let segs: Vec<&str> = key.split('/').collect();
-            if segs.len() == 4 && segs[1] == "clients" {
-                let ok = if segs[3] == "graveGoods" {
-                    serde_json::from_value::<Vec<String>>(value.clone()).is_ok()
-                } else if segs[3] == "lastWill" {
-                    parse_last_will(&value).is_some()
-                } else {
-                    true
-                };
-                if !ok {
-                    *self = before;
-                    return Err(E_IO);
-                }
-            }
+        if c != INTERNAL && malformed_registration(key, &value) {
+            *self = before;
+            return Err(E_IO);
         }
         self.notify_ls(ctx, &before);
         let mut batch = BTreeMap::new();
@@ -967,6 +955,11 @@ impl RefCore {
                     Op::PDelete(c, p) => (Some(p), Some(*c), false),
                     _ => (None, None, false),
                 };
+                if let Op::Set(_, k, v) | Op::CSet(_, k, v, _) = op {
+                    if malformed_registration(k, v) {
+                        codes.push(E_IO);
+                    }
+                }
                 if let (Some(k), Some(c)) = (key, client) {
                     if let Err(e) = check_read_only(k, c) {
                         codes.push(e);
@@ -1000,6 +993,24 @@ impl RefCore {
                 }
             }
         }
+    }
+}
+
+/// A value written to `$SYS/clients/<id>/graveGoods|lastWill` that is not a registration.
+pub fn malformed_registration(key: &str, value: &Value) -> bool {
+    let segs: Vec<&str> = key.split('/').collect();
+    if segs.len() != 4 || segs[0] != "$SYS" || segs[1] != "clients" {
+        return false;
+    }
+    if value.is_null() {
+        return false; // "no registration"
+    }
+    if segs[3] == "graveGoods" {
+        serde_json::from_value::<Vec<String>>(value.clone()).is_err()
+    } else if segs[3] == "lastWill" {
+        parse_last_will(value).is_none()
+    } else {
+        false
     }
 }
 
